@@ -33,6 +33,12 @@ pub struct PCase {
     /// default literals are written as named constants (`#[literal(K0)]`): a literal instruction takes any constant
     /// expression usable as a pattern, not only literal tokens (seed C09-08)
     pub lit_const: bool,
+    /// the catch-all variant binds the value (`#[pattern(n)]`) and its payload reads the binding (`n` owned, `*n` by
+    /// reference) instead of `@` - a binding made while matching `&T` is a reference (seed C09-10)
+    pub bind: bool,
+    /// the pattern dedicated to the second counterpart is a named constant (`#[pattern(i16| KS0)]`): a dedicated
+    /// pattern made of paths only is still dedicated (seed C09-11)
+    pub second_const: bool,
     pub tags: Vec<String>,
 }
 
@@ -138,7 +144,15 @@ pub fn gen(ctx: &mut Ctx, max_variants: usize) -> Option<PCase> {
     if second_pattern.iter().any(|x| *x) {
         tags.push("literal+dedicated-pattern".into());
     }
-    Some(PCase { prim, second, second_pattern, arms, kinds, lit_payload, lit_const, tags })
+    let bind = arms.iter().any(|a| *a == Arm::CatchAll) && ctx.flag();
+    if bind {
+        tags.push("catch-all=binding".into());
+    }
+    let second_const = second_pattern.iter().any(|x| *x) && ctx.flag();
+    if second_const {
+        tags.push("dedicated-pattern=constant".into());
+    }
+    Some(PCase { prim, second, second_pattern, arms, kinds, lit_payload, lit_const, bind, second_const, tags })
 }
 
 impl PCase {
@@ -207,7 +221,10 @@ impl PCase {
                     let lk = if self.lit_const { format!("K{}", i) } else { self.lit(*k) };
                     match self.second.get(i).cloned().flatten() {
                         // (the literal is dedicated to the first counterpart: a default literal would apply to i16 too, next to the pattern)
-                        Some((v, _)) if self.second_pattern[i] => { let _ = writeln!(o, "    #[pattern(i16| {v})] #[into(i16| {{ {v} }})] #[literal({}| {})] {},", ty, lk, vn); }
+                        Some((v, _)) if self.second_pattern[i] => {
+                            let pv = if self.second_const { format!("KS{}", i) } else { v.to_string() };
+                            let _ = writeln!(o, "    #[pattern(i16| {pv})] #[into(i16| {{ {v} }})] #[literal({}| {})] {},", ty, lk, vn);
+                        }
                         Some((v, true)) => { let _ = writeln!(o, "    #[literal(i16| {})] #[literal({})] {},", v, lk, vn); }
                         Some((v, false)) => { let _ = writeln!(o, "    #[literal({})] #[literal(i16| {})] {},", lk, v, vn); }
                         None => { let _ = writeln!(o, "    #[literal({})] {},", lk, vn); }
@@ -228,7 +245,8 @@ impl PCase {
                 Arm::CatchAll => {
                     let into = if needs_into { if self.kinds == 1 { "#[owned_into({ f0 })] #[ref_into({ *f0 })] " } else { "#[into({ f0 })] " } } else { "" };
                     let from = if self.kinds == 1 { "#[from_owned(@)] #[from_ref(*@)] " } else { "#[from(@)] " };
-                    let _ = writeln!(o, "    #[pattern(_)] {}{}({}{}),", into, vn, from, ty);
+                    let (pat, from) = if self.bind { ("n", from.replace('@', "n")) } else { ("_", from.to_string()) };
+                    let _ = writeln!(o, "    #[pattern({})] {}{}({}{}),", pat, into, vn, from, ty);
                 }
                 Arm::Ghost(v) => {
                     let _ = writeln!(o, "    #[ghost({{ {} }})] {},", self.lit(*v), vn);
@@ -248,6 +266,13 @@ impl PCase {
             for (i, a) in self.arms.iter().enumerate() {
                 if let Arm::Literal(k) = a {
                     let _ = writeln!(o, "pub const K{}: {} = {};", i, self.ty(), self.lit(*k));
+                }
+            }
+        }
+        if self.second_const {
+            for (i, x) in self.second.iter().enumerate() {
+                if let (Some((v, _)), true) = (x, self.second_pattern[i]) {
+                    let _ = writeln!(o, "pub const KS{}: i16 = {};", i, v);
                 }
             }
         }
